@@ -126,7 +126,7 @@ NotStricter == MayStart(c) => Impl(c)
 (***************************************************************************)
 (* Part S                                                                  *)
 (***************************************************************************)
-Holding == {"held", "running", "exiting", "closing"}     \* the stream owns a slot of the counter
+Holding == {"held", "running", "exiting", "closing", "closingx"}     \* the stream owns a slot of the counter
 SInit ==
   /\ sessions = 0
   /\ pc = [t \in Streams |-> "idle"]
@@ -160,19 +160,25 @@ OpenRetErr(t)  == pc[t] \in {"denied", "startfailed"} /\ Step(t, "idle", "OpenRe
 \* releaseSession (first caller only: ShellStream.Released): process killed and reaped, then ReleaseSession.
 \* Happens on the stream's own exit path (waitForExit / pumpPTYOutput -> closeStream) or inside HandleStreamClose.
 \* the stub process of the harness exits only when told to: ExitSent marks that the client wrote the line it waits for
-\* (when the client has already started closing the stream the line changes nothing)
+\* "closingx": the client's close call and the process' own exit are both under way (in either order).
 ExitSent(t) == /\ pc[t] \in {"running", "closing", "closingreleased", "closed"}
-               /\ Step(t, IF pc[t] = "running" THEN "exiting" ELSE pc[t], "ExitSent") /\ UNCHANGED <<sessions, opens>>
-Release(t) == /\ pc[t] \in {"exiting", "closing"}
+               /\ Step(t, CASE pc[t] = "running" -> "exiting" [] pc[t] = "closing" -> "closingx" [] OTHER -> pc[t], "ExitSent")
+               /\ UNCHANGED <<sessions, opens>>
+Release(t) == /\ pc[t] \in {"exiting", "closing", "closingx"}
               /\ sessions' = IF sessions > 0 THEN sessions - 1 ELSE 0
-              /\ Step(t, IF pc[t] = "closing" THEN "closingreleased" ELSE "released", "Release") /\ UNCHANGED opens
+              /\ Step(t, IF pc[t] = "exiting" THEN "released" ELSE "closingreleased", "Release") /\ UNCHANGED opens
 DevReleaseAgain(t) == /\ "DevDoubleRelease" \in Dev /\ pc[t] \in {"released", "closingreleased", "closed"}
                       /\ sessions' = IF sessions > 0 THEN sessions - 1 ELSE 0
                       /\ Step(t, "gone", "DevReleaseAgain") /\ UNCHANGED opens
 CloseCall(t) == /\ pc[t] \in {"running", "exiting", "released"}
-                /\ Step(t, IF pc[t] = "released" THEN "closingreleased" ELSE "closing", "CloseCall")
+                /\ Step(t, CASE pc[t] = "released" -> "closingreleased" [] pc[t] = "exiting" -> "closingx" [] OTHER -> "closing",
+                        "CloseCall")
                 /\ UNCHANGED <<sessions, opens>>
-CloseRet(t)  == pc[t] = "closingreleased" /\ Step(t, "closed", "CloseRet") /\ UNCHANGED <<sessions, opens>>
+\* HandleStreamClose returns after the release - except when the stream's own exit path (closeStream) has already
+\* removed the stream from the handler's table: then the call finds nothing, returns at once, and the exit path
+\* releases the slot afterwards (a late release; the slot is still counted, so the maximum is not exceeded)
+CloseRet(t)  == \/ pc[t] = "closingreleased" /\ Step(t, "closed", "CloseRet") /\ UNCHANGED <<sessions, opens>>
+                \/ pc[t] = "closingx" /\ Step(t, "exiting", "CloseRet") /\ UNCHANGED <<sessions, opens>>
 \* the handler's WriteStreamClose for the stream (after its own exit path released it)
 StreamClosed(t) == pc[t] \in {"released", "closed", "closingreleased"} /\ Step(t, pc[t], "StreamClosed") /\ UNCHANGED <<sessions, opens>>
 \* ActiveSessions(): call, linearisation, return
@@ -193,5 +199,5 @@ SNext == \/ \E t \in Streams : \/ OpenCall(t) \/ Internal(t) \/ OpenRetOk(t) \/ 
 \* the processes alive (streams between ACK and release) never exceed the maximum
 CounterLeMax == Max > 0 => sessions <= Max
 CounterExact == sessions = Cardinality({t \in Streams : pc[t] \in Holding})
-LiveLeMax    == Max > 0 => Cardinality({t \in Streams : pc[t] \in {"running", "exiting", "closing"}}) <= Max
+LiveLeMax    == Max > 0 => Cardinality({t \in Streams : pc[t] \in {"running", "exiting", "closing", "closingx"}}) <= Max
 =============================================================================
